@@ -187,7 +187,7 @@ func Run(c Case, r *pbt.Rec) (err error) {
 			return pbt.Failf("resurrected", "step %d: GetCF(cf=%d,%q) = %d-byte value, want not found (last write was a delete or none)", step, cf, key, len(e.Value))
 		}
 		if gotPresent && !bytes.Equal(e.Value, mv.val) {
-			return pbt.Failf("stale", "step %d: GetCF(cf=%d,%q) = %s, want %s", step, cf, key, brief(e.Value), brief(mv.val))
+			return pbt.Failf("stale", "step %d: GetCF(cf=%d,%q) = %s, want %s [layout tracker: %s]", step, cf, key, brief(e.Value), brief(mv.val), trk.Describe(eng.BaseKey(cf, key)))
 		}
 		if c.NTRule == "gc" {
 			if mv != nil && mv.gcAfter && mv.overwrites > 0 && mv.vlog {
